@@ -99,6 +99,18 @@ func (s *scEnds) Actions(w *World) []Action {
 				s.endsDone++
 				w.fault("end:"+es.name, st.sid)
 				w.mu.Lock()
+				if es.name == "state-changed" && w.tape.Draw(2, nil) == 1 {
+					// the reason a real server gives this status: the vBucket was failed over. New branch from the
+					// current high seqno (nothing lost); the re-opened stream reports the new vbUUID.
+					v := st.conn.bucket.vbs[st.vb]
+					nu := v.failover[0].UUID + 100000
+					v.failover = append([]FEntry{{UUID: nu, Seq: v.high}}, v.failover...)
+					for i := range v.copies {
+						v.copies[i].UUID = nu
+					}
+					w.jl(&journal.Ev{K: journal.KNote, Vb: st.vb, S: "failover", U: nu, Seq: v.high})
+					w.faultsFired["failover"]++
+				}
 				st.endStat = es.status
 				w.cl.emitEnd(st)
 				w.mu.Unlock()
